@@ -436,10 +436,16 @@ func main() {
 	// ---- the monitor goroutine
 	mo := parse(filepath.Join(dir, "monitoring.go"))
 	rpm := must(findFunc(mo, "subprocessMonitoring", "runProcessMonitoring"), "subprocessMonitoring.runProcessMonitoring")
-	if len(rpm.Body.List) != 1 {
+	var monBody []string
+	stmts := rpm.Body.List
+	if len(stmts) == 2 && norm(stmts[0]) == "s.monitoringOn.Store(true)" {
+		monBody = append(monBody, "MOnTrueSync") // set before the goroutine exists: IsOn() is true as soon as Start returns
+		stmts = stmts[1:]
+	}
+	if len(stmts) != 1 {
 		die("runProcessMonitoring is not a single go statement")
 	}
-	gs, ok := rpm.Body.List[0].(*ast.GoStmt)
+	gs, ok := stmts[0].(*ast.GoStmt)
 	if !ok {
 		die("runProcessMonitoring is not a single go statement")
 	}
@@ -447,7 +453,6 @@ func main() {
 	if !ok || norm(fl.Type) != "func(m*subprocessMonitoring,stopfunc()error)" || len(gs.Call.Args) != 2 || norm(gs.Call.Args[0]) != "s" || norm(gs.Call.Args[1]) != "stopProcess" {
 		die("runProcessMonitoring: unexpected goroutine signature / arguments")
 	}
-	var monBody []string
 	for _, st := range fl.Body.List {
 		s := norm(st)
 		switch {
